@@ -372,6 +372,49 @@ func ruleCloseOrder(r *Run, p *Program, rule string) {
 			r.ok(rule, "(*pogreb.DB).Close:"+s, p.Pos(f.Pos()), s+" precedes LockFile.Unlock on every path", true)
 		}
 	}
+	// a failed step keeps the lock file: from a step, with its result assumed non-nil, Unlock must be unreachable
+	{
+		var unlockInstr []ssa.Instruction
+		instrsOf(f, func(in ssa.Instruction) {
+			if cc := callOf(in); cc != nil && isInvoke(cc, "fs.LockFile", "Unlock") {
+				if _, isDefer := in.(*ssa.Defer); !isDefer {
+					unlockInstr = append(unlockInstr, in)
+				}
+			}
+		})
+		instrsOf(f, func(in ssa.Instruction) {
+			c, ok := in.(*ssa.Call)
+			if !ok {
+				return
+			}
+			k := calleeKey(&c.Call)
+			isStep := false
+			for _, s := range steps {
+				if s == k {
+					isStep = true
+				}
+			}
+			if !isStep || len(unlockInstr) == 0 {
+				return
+			}
+			wk := &Walk{Fn: f, InitFacts: facts("").withErrResult(c, false), SkipEdge: func(b *ssa.BasicBlock, kk int) bool {
+				cd := edgeCond(b, kk)
+				if cd == nil {
+					return false
+				}
+				e := errNilEdge(cd)
+				return e != nil && valueOfCall(e, c)
+			}}
+			wk.From(c)
+			reach := false
+			for _, u := range unlockInstr {
+				if wk.Visited[u] {
+					reach = true
+				}
+			}
+			r.check(!reach, rule, "(*pogreb.DB).Close:keeps-lock-when("+k+" failed)", p.Pos(c.Pos()), "when "+k+" fails the lock file is kept, so the next Open recovers", "DB.Close releases (removes) the lock file although "+k+" failed: the next Open skips recovery and trusts index/meta files that were not completely written")
+		})
+	}
 	// every success return of Close has (re)written each metadata file: the create-open of the file is on the path
 	for _, fam := range []string{"db.pmt", "index.pmt"} {
 		fam := fam
@@ -456,43 +499,49 @@ func checkLoopSkipsOnlyNil(r *Run, p *Program, rule string, f *ssa.Function) {
 	if !r.anchor(rule, "per-segment calls in "+funcKey(f), len(work) > 0) {
 		return
 	}
-	// from the loop header, with "elem == nil" edges removed, can the loop continue (reach the header again) without passing the first work call?
+	// within one iteration, each per-segment call may be bypassed only for a nil entry (or on an error / the loop bound)
+	bad := false
 	first := work[0]
 	for _, wk := range work {
 		if wk.Pos() < first.Pos() {
 			first = wk
 		}
 	}
-	// any branch edge on a path from function entry to `first` other than nil-tests of the element and loop bound tests
-	w := &Walk{Fn: f, Stop: func(in ssa.Instruction) bool { return in == first }}
-	w.From()
-	bad := false
-	for _, b := range f.Blocks {
-		if !sameCycle(b, first.Block()) {
-			continue
-		}
-		for k := range b.Succs {
-			c := edgeCond(b, k)
-			if c == nil || !w.Visited[b.Instrs[len(b.Instrs)-1]] {
+	reported := map[token.Pos]bool{}
+	for _, target := range work {
+		w := &Walk{Fn: f, Stop: func(in ssa.Instruction) bool { return in == target }}
+		w.From()
+		for _, b := range f.Blocks {
+			if !sameCycle(b, target.Block()) {
 				continue
 			}
-			if !edgeDominatesNot(f, b, k, first) {
-				continue
-			}
-			// this edge avoids `first`: it must be the nil test or the loop bound
-			if isNilTestOfSegElem(c) {
-				// ... and skipping a nil entry must go on with the next entry, not leave the loop
-				if !sameCycle(b.Succs[k], first.Block()) && b.Succs[k] != first.Block() {
-					bad = true
-					r.bad(rule, funcKey(f)+":skips-only-nil", p.Pos(c.If.Cond.Pos()), "the loop over datalog.segments stops at the first nil entry instead of skipping it: after compaction freed a lower segment id every segment behind the hole is left unsynced, unclosed and without its meta file")
+			for k := range b.Succs {
+				c := edgeCond(b, k)
+				if c == nil || !w.Visited[b.Instrs[len(b.Instrs)-1]] {
+					continue
 				}
-				continue
+				if !edgeDominatesNot(f, b, k, target) {
+					continue
+				}
+				if isNilTestOfSegElem(c) {
+					if !sameCycle(b.Succs[k], target.Block()) && b.Succs[k] != target.Block() {
+						if !reported[c.If.Cond.Pos()] {
+							reported[c.If.Cond.Pos()] = true
+							bad = true
+							r.bad(rule, funcKey(f)+":skips-only-nil", p.Pos(c.If.Cond.Pos()), "the loop over datalog.segments stops at the first nil entry instead of skipping it: after compaction freed a lower segment id every segment behind the hole is left unsynced, unclosed and without its meta file")
+						}
+					}
+					continue
+				}
+				if isLoopBound(c) || errNonNilEdge(c) != nil {
+					continue
+				}
+				if !reported[c.If.Cond.Pos()] {
+					reported[c.If.Cond.Pos()] = true
+					bad = true
+					r.bad(rule, funcKey(f)+":skips-only-nil", p.Pos(c.If.Cond.Pos()), "the loop over datalog.segments can skip a step ("+callString(callOf(target))+") for a non-nil segment ("+c.String(p)+"): that segment would not be synced/closed or its meta file not (re)written, so what the next session reads about it is stale")
+				}
 			}
-			if isLoopBound(c) || errNonNilEdge(c) != nil {
-				continue
-			}
-			bad = true
-			r.bad(rule, funcKey(f)+":skips-only-nil", p.Pos(c.If.Cond.Pos()), "the loop over datalog.segments can skip a non-nil segment ("+c.String(p)+"): that segment would not be synced/closed/its meta not written")
 		}
 	}
 	if !bad {
